@@ -4,6 +4,7 @@
 mod db;
 mod enc;
 mod hk;
+mod crash;
 mod sqlrun;
 
 fn main() {
@@ -18,6 +19,7 @@ fn main() {
     }
     let code = match args[1].as_str() {
         "sql" => sqlrun::main(&args[2..]),
+        "crash" => crash::main(&args[2..]),
         other => {
             eprintln!("unknown driver {other}");
             2
